@@ -53,6 +53,9 @@ def check(prop, tier, seed):
                 i = len(jobs)
                 jobs.append({"k": "hex", "id": i, "which": which, "n": n, "seed": (seed + n) % 7, "path": os.path.join(d, "f%d.hex" % i),
                              "prefill": 0 if n % 5 else (n // 16 + 40)})       # every fifth file replaces a longer, older file
+                if n % 3 == 1 and n <= 70000:
+                    # the image is rewritten in place and written once more: nothing of the first writing may be reused
+                    jobs[-1]["again_seed"] = (seed + n + 3) % 7
                 meta.append((which, n, (seed + n) % 7))
             # contents with long runs: erased memory (all FF), all zero, the pattern with erased 16-byte rows
             for sd in (7, 8, 9):
@@ -68,6 +71,11 @@ def check(prop, tier, seed):
             events.append({"which": which, "n": n, "seed": sd, "res": r["r"], "recs": recs})
             if r["r"] == "ok":
                 os.remove(r["path"])
+            if "again" in r:
+                r2 = r["again"]
+                events.append({"which": which, "n": n, "seed": jobs[i]["again_seed"], "res": r2["r"], "recs": lex(r2["path"]) if r2["r"] == "ok" else []})
+                if r2["r"] == "ok":
+                    os.remove(r2["path"])
         # binding self-test: flip one data byte / one address / drop a record / append a second EOF
         good = next(e for e in events if e["res"] == "ok" and e["n"] == 100 and e["seed"] < 7)
         can = []
@@ -112,7 +120,7 @@ def check(prop, tier, seed):
             "evaluations": len(events), "distinct_nontrivial": len({(e["which"], e["n"], e["seed"]) for e in events if e["n"] > 0}),
             "rule": "every image length 0..600 and every length within 17 bytes of each 64 KiB boundary up to %d KiB, contents IHex!Img(seed, i) "
                     "(seven all-values patterns; erased memory, all zero and erased rows for lengths 0..99 and boundaries), every fifth file written over "
-                    "a longer older file, for both writers; distinct = distinct (writer, length, contents)" % (128 if tier == "quick" else 512),
+                    "a longer older file, every third image rewritten in place and written a second time, for both writers; distinct = distinct (writer, length, contents)" % (128 if tier == "quick" else 512),
             "largest_image": max(e["n"] for e in events),
             "model_checking_of_spec": dict(mc, theorems="RoundTrip: the reference writer's output reproduces the image for all lengths 0..70, record lengths 2..5, "
                                                         "block sizes 16/32; Rejects: six typical writer defects are rejected"),
